@@ -47,6 +47,8 @@ type Result struct {
 	Violations []Violation    `json:"violations,omitempty"`
 	Outcome    sim.Outcome    `json:"outcome"`
 	NonTrivial bool           `json:"nontrivial"`
+	Evals      int            `json:"evals,omitempty"`            // evaluations performed by this run when it is more than one (fault sub-runs)
+	NonTrivN   int            `json:"nontrivial_count,omitempty"` // distinct non-trivial evaluations inside this run (default 1 when nontrivial)
 	Stats      map[string]int `json:"stats,omitempty"`
 	StateHash  string         `json:"state_hash,omitempty"`
 	WallMs     float64        `json:"wall_ms"`
@@ -81,6 +83,9 @@ func (e *Env) Stat(name string, n int) {
 }
 
 func (e *Env) SetNonTrivial(b bool) { e.res.NonTrivial = b }
+func (e *Env) SetEvals(evals, nontrivial int) {
+	e.res.Evals, e.res.NonTrivN = evals, nontrivial
+}
 func (e *Env) SetStateHash(h string) { e.res.StateHash = h }
 func (e *Env) Infra(format string, a ...any) {
 	if e.res.Infra == "" {
